@@ -119,6 +119,10 @@ STAGES = {
     "addfieldusingcontext": (lambda t, p: etl.addfieldusingcontext(t, "c%d" % p, lambda a, b, c: a is None), 3),
     "filldown": (lambda t, p: etl.filldown(t, 1), 3),
     "sub": (lambda t, p: etl.sub(t, 3, "x", "y") if p < 0 else etl.convert(t, 0, str), 3),
+    # a dict column in which dicts are rare: the key sample is a sample of ROWS (samplesize=2), not of dict-bearing rows
+    # (unpackdict wants the field by name: the stage reads the header - not a data row - to learn it)
+    "unpackdict_sparse": (lambda t, p: (lambda nm: etl.unpackdict(etl.convert(t, nm, lambda v: {"p": v} if v == "a" else None), nm,
+                                                                  samplesize=2))(etl.header(t)[1]), 3),
     "unpack": (lambda t, p: etl.unpack(etl.convert(t, 1, lambda v: [v, v]), 1, ["p%d" % p, "q%d" % p]), 3),
     # pass-through views that write to a sink while rows flow: releasing a partially consumed iterator must not drain the
     # source either (the pull counter is read after the iterator has been released)
